@@ -13,7 +13,7 @@ import (
 
 // innersShape inspects a built trie: total bit length of the label bitmaps and
 // the kind of the last inner node (b = 257-bit, n = 17-bit, s = short).
-func innersShape(st *slim.SlimTrie) (bitsLen int, last byte, ok bool) {
+func InnersShape(st *slim.SlimTrie) (bitsLen int, last byte, ok bool) {
 	buf, err := st.Marshal()
 	if err != nil || len(buf) < 32 {
 		return
@@ -89,13 +89,17 @@ func boundaryCasesF(c *lp.Ctx, budget int, flagsFn func() string, each func(cs *
 			if a := lp.Exec(cs.Line()); a != "ok" {
 				continue
 			}
-			bl, last, ok := innersShape(S.St)
+			bl, last, ok := InnersShape(S.St)
 			if !ok {
 				continue
 			}
 			key := fmt.Sprintf("%d%c", bl%64, last)
 			want := bl%64 == 0 || ((bl%64 == 63 || bl%64 == 1) && c.Rng.Intn(8) == 0)
 			if !want || found[key] > budget {
+				continue
+			}
+			// every kind of last node: do not let one kind use up the budget
+			if bl%64 == 0 && last != 's' && found[key] >= (budget+2)/3 {
 				continue
 			}
 			found[key]++
